@@ -64,4 +64,60 @@ theorem inc_increased_pending (mx win : Nat) (l : Lvl) (r t cost : Nat)
   rw [inc_increased_memo mx win l r t cost h]
   rfl
 
+theorem lookup_filter_ne {β : Type} (m : List (Nat × β)) (r r' : Nat) (h : r ≠ r') :
+    (m.filter (fun e => e.1 != r')).lookup r = m.lookup r := by
+  induction m with
+  | nil => rfl
+  | cons e es ih =>
+    obtain ⟨k, v⟩ := e
+    by_cases hk : k = r'
+    · subst hk
+      have : (r == k) = false := by simp [h]
+      simp [List.filter_cons, List.lookup, this, ih]
+    · by_cases hr : r = k
+      · subst hr; simp [List.filter_cons, List.lookup, hk]
+      · have : (r == k) = false := by simp [hr]
+        simp [List.filter_cons, List.lookup, hk, this, ih]
+
+/-- one quiet step keeps a pending entry -/
+theorem step_keeps (c : Cfg) (l : Lvl) (r : Nat) (v : Option Nat) (o : Op)
+    (hm : l.memo.lookup r = some v) (hq : restarts c l o = false) (ha : o ≠ .allowed r) (hd : o ≠ .dec r) :
+    (step c l o).1.memo.lookup r = some v := by
+  cases o with
+  | read => exact hm
+  | allowed r' =>
+    have hne : r ≠ r' := fun e => ha (by rw [e])
+    show (allowedLevel l r').1.memo.lookup r = some v
+    unfold allowedLevel
+    split
+    · exact hm
+    · show (l.memo.filter _).lookup r = _
+      rw [lookup_filter_ne _ _ _ hne]; exact hm
+  | dec r' =>
+    have hne : r ≠ r' := fun e => hd (by rw [e])
+    show (l.memo.filter _).lookup r = _
+    rw [lookup_filter_ne _ _ _ hne]; exact hm
+  | inc r' t =>
+    show (incLevel c.max c.win l r' t 1).1.memo.lookup r = some v
+    cases hl : l.memo.lookup r' with
+    | some w => simp [incLevel, hl, hm]
+    | none =>
+      have hne : r ≠ r' := by intro e; rw [e, hl] at hm; cases hm
+      have hb : (r == r') = false := by simp [hne]
+      have hw : ¬ c.win ≤ elapsed l t := by
+        simpa [restarts, hl] using hq
+      by_cases h2 : c.max < l.counter + 1
+      · simp [incLevel, hl, hw, h2, List.lookup, hb, hm]
+      · simp [incLevel, hl, hw, h2, List.lookup, hb, hm]
+
+theorem quiet_keeps (c : Cfg) (r : Nat) (v : Option Nat) (ops : List Op) : ∀ l : Lvl,
+    l.memo.lookup r = some v → quietFor c r l ops = true → (final c l ops).memo.lookup r = some v := by
+  induction ops with
+  | nil => intro l hm _; exact hm
+  | cons o os ih =>
+    intro l hm hq
+    simp only [quietFor, Bool.and_eq_true, Bool.not_eq_true', bne_iff_ne, ne_eq] at hq
+    obtain ⟨⟨⟨h1, h2⟩, h3⟩, h4⟩ := hq
+    exact ih _ (step_keeps c l r v o hm h1 h2 h3) h4
+
 end LunarVerif.C18.Observe
